@@ -145,23 +145,32 @@ def Linear {κ : Type} (defs : List (Nat × Table)) (hist : List (Op κ)) : Bool
 def entries (t : Table) : List (Str × Str × Int) :=
   t.aminoAcids.flatMap fun a => a.codons.map fun c => (a.letter, c.triplet, c.weight)
 
-/-- weight of the first codon with this triplet (0 when absent) -/
-def weightOf (t : Table) (x : Str) : Int :=
-  match (entries t).find? (fun e => e.2.1 == x) with
+/-- weight of the first entry with this triplet (0 when absent) -/
+def weightOfE (E : List (Str × Str × Int)) (x : Str) : Int :=
+  match E.find? (fun e => e.2.1 == x) with
   | some e => e.2.2
   | none => 0
 
 /-- weight of triplet `x` under letter `l` -/
-def weightAt (t : Table) (l x : Str) : Int :=
-  match (entries t).find? (fun e => e.1 == l && e.2.1 == x) with
+def weightAtE (E : List (Str × Str × Int)) (l x : Str) : Int :=
+  match E.find? (fun e => e.1 == l && e.2.1 == x) with
   | some e => e.2.2
   | none => 0
 
 def sumInts (l : List Int) : Int := l.foldr (· + ·) 0
 
+/-- total weight of the entries under letter `l` -/
+def totalOfE (E : List (Str × Str × Int)) (l : Str) : Int :=
+  sumInts ((E.filter fun e => e.1 == l).map (·.2.2))
+
+/-- weight of the first codon with this triplet (0 when absent) -/
+def weightOf (t : Table) (x : Str) : Int := weightOfE (entries t) x
+
+/-- weight of triplet `x` under letter `l` -/
+def weightAt (t : Table) (l x : Str) : Int := weightAtE (entries t) l x
+
 /-- total weight of the codons listed under letter `l` -/
-def totalOf (t : Table) (l : Str) : Int :=
-  sumInts (((entries t).filter fun e => e.1 == l).map (·.2.2))
+def totalOf (t : Table) (l : Str) : Int := totalOfE (entries t) l
 
 /-- (letter, triplet) assignment -/
 def pairs (t : Table) : List (Str × Str) := (entries t).map fun e => (e.1, e.2.1)
@@ -172,7 +181,12 @@ def WFCode (t : Table) : Bool :=
 
 /-- same genetic code as maps (order-insensitive) -/
 def sameCode (t1 t2 : Table) : Bool :=
-  (pairs t1).all (fun p => (pairs t2).contains p) && (pairs t2).all (fun p => (pairs t1).contains p)
+  let p1 := pairs t1
+  let p2 := pairs t2
+  p1.all (fun p => p2.contains p) && p2.all (fun p => p1.contains p)
+
+/-- two well-formed tables over the same genetic code (any order of amino acids and codons) -/
+def Compatible (t1 t2 : Table) : Bool := WFCode t1 && WFCode t2 && sameCode t1 t2
 
 /-- every amino acid occurs -/
 def posTotals (t : Table) : Bool := t.aminoAcids.all fun a => decide (0 < sumInts (a.codons.map (·.weight)))
@@ -184,27 +198,39 @@ def keepsCode (t1 r : Table) : Bool := decide (codeOf r = codeOf t1)
 
 /-- judge predicate for AddCodonTable -/
 def isSumOf (t1 t2 r : Table) : Bool :=
-  keepsCode t1 r && (entries r).all fun e => decide (e.2.2 = weightAt t1 e.1 e.2.1 + weightOf t2 e.2.1)
+  let e1 := entries t1
+  let e2 := entries t2
+  keepsCode t1 r && (entries r).all fun e => decide (e.2.2 = weightAtE e1 e.1 e.2.1 + weightOfE e2 e.2.1)
 
 /-- exact share on the 10000 scale -/
 def shareFloor (w total : Int) : Int := (10000 * w) / total
 
-/-- judge predicate for CompromiseCodonTable with cut-off weight `cw = ⌊10000·c⌋`, tolerance `tol` on the 10000 scale:
-each weight is the mean of the two shares, or 0 when a share is below the cut-off; a share within `tol` of
-the cut-off may go either way -/
-def isCompromiseOf (tol : Int) (cw : Int) (t1 t2 r : Table) : Bool :=
+/-- what the compromise weight of one codon may be: `f`, `s` the two exact shares, cut-off weight known to lie
+in `[cwLo, cwHi]`, rounding tolerance `tol` on the 10000 scale: 0 when a share is below the cut-off, the mean
+otherwise; a share within the tolerance of the cut-off may go either way -/
+def compromiseWeightOk (tol cwLo cwHi f s w : Int) : Bool :=
+  let lo := min f s
+  let mean := (f + s) / 2
+  let okMean := decide (mean - tol ≤ w ∧ w ≤ mean + tol)
+  if lo + tol < cwLo then w == 0
+  else if lo - tol ≥ cwHi then okMean
+  else w == 0 || okMean
+
+/-- judge predicate for CompromiseCodonTable -/
+def isCompromiseOf (tol cwLo cwHi : Int) (t1 t2 r : Table) : Bool :=
+  let e1 := entries t1
+  let e2 := entries t2
   keepsCode t1 r && (entries r).all fun e =>
-    let f := shareFloor (weightAt t1 e.1 e.2.1) (totalOf t1 e.1)
-    let s := shareFloor (weightAt t2 e.1 e.2.1) (totalOf t2 e.1)
-    let lo := min f s
-    let mean := (f + s) / 2
-    let okMean := decide (mean - tol ≤ e.2.2 ∧ e.2.2 ≤ mean + tol)
-    if lo + tol < cw then e.2.2 == 0
-    else if lo - tol ≥ cw then okMean
-    else e.2.2 == 0 || okMean
+    compromiseWeightOk tol cwLo cwHi
+      (shareFloor (weightAtE e1 e.1 e.2.1) (totalOfE e1 e.1)) (shareFloor (weightAtE e2 e.1 e.2.1) (totalOfE e2 e.1)) e.2.2
+
+/-- "never rarer than the cut-off in either organism": codon `x` under letter `l` -/
+def notRare (tol cwLo : Int) (t1 t2 : Table) (l x : Str) : Bool :=
+  decide (shareFloor (weightAt t1 l x) (totalOf t1 l) + tol ≥ cwLo) && decide (shareFloor (weightAt t2 l x) (totalOf t2 l) + tol ≥ cwLo)
 
 /-- symmetry as maps -/
 def sameWeights (r12 r21 : Table) : Bool :=
-  sameCode r12 r21 && (entries r12).all fun e => decide (e.2.2 = weightAt r21 e.1 e.2.1)
+  let e2 := entries r21
+  sameCode r12 r21 && (entries r12).all fun e => decide (e.2.2 = weightAtE e2 e.1 e.2.1)
 
 end PolyVerif.Spec.ValueTables
